@@ -19,6 +19,7 @@ import (
 	grpcsvc "github.com/imoore76/ldlm/net/grpc"
 	pb "github.com/imoore76/ldlm/protos"
 	"github.com/imoore76/ldlm/server"
+	cl "github.com/imoore76/ldlm/server/clientlock"
 	"github.com/imoore76/ldlm/server/ipc"
 	"github.com/imoore76/ldlm/server/session/store"
 	"github.com/imoore76/ldlm/timermap"
@@ -146,6 +147,7 @@ type Exec struct {
 	dropping bool
 	trace    []tev
 	Panic    string
+	initFile *[]FSess // the state file written before the first boot (nil: none); the first boot is then the history's first `restart`
 }
 
 func (x *Exec) serverConfig() *server.LockServerConfig {
@@ -175,6 +177,24 @@ func (x *Exec) boot() error {
 	x.svc = grpcsvc.NewService(srv)
 	x.ipcRecv = ipc.NewVerifIPC(srv)
 	return nil
+}
+
+// writeInitFile puts the sessions of an init_file history into the state file, through the real store (the codec under test).
+func writeInitFile(path string, f []FSess) error {
+	m := map[string][]cl.Lock{}
+	for _, s := range f {
+		l := make([]cl.Lock, 0, len(s.Locks))
+		for _, k := range s.Locks {
+			l = append(l, cl.New(unhx(k.Name), unhx(k.Key), k.Size))
+		}
+		m[unhx(s.Sid)] = l
+	}
+	st, err := store.New(path)
+	if err != nil {
+		return err
+	}
+	defer st.Close()
+	return st.Write(m)
 }
 
 func NewExec(cfg Cfg, statePath string) *Exec {
@@ -339,6 +359,13 @@ func lockResp(reqName string, resp *pb.LockResponse, rerr error) (locked bool, k
 func (x *Exec) Step(i int, ev Ev) {
 	e := tev{}
 	outs := []string{}
+	if x.srv == nil && ev.Op != "restart" {
+		// an init_file history whose first event is not the boot (a hand-edited replay): boot silently; the model will not follow
+		if err := x.boot(); err != nil {
+			x.Panic = "boot failed: " + err.Error()
+			return
+		}
+	}
 	switch ev.Op {
 	case "conn":
 		ctx0 := x.svc.TagConn(context.Background(), &stats.ConnTagInfo{RemoteAddr: &net.TCPAddr{IP: net.IPv4(127, 0, 0, 1)}})
@@ -493,9 +520,12 @@ func (x *Exec) Step(i int, ev Ev) {
 		}
 	case "restart":
 		e.eline = []string{"restart"}
-		x.killAll()
-		x.closer()
-		x.quiesce()
+		if x.srv != nil {
+			x.killAll()
+			x.closer()
+			x.quiesce()
+		}
+		// (x.srv == nil: the first boot of an init_file history, on the file written by RunHistory)
 		if err := x.boot(); err != nil {
 			x.Panic = "restart failed: " + err.Error()
 			outs = append(outs, "restart-error "+hx(err.Error()))
@@ -610,6 +640,17 @@ func (x *Exec) Finish() {
 func (x *Exec) Lines(id string) []string {
 	ls := []string{"H " + id,
 		fmt.Sprintf("C %s %s %d %d %d", b01(x.cfg.NoClear), b01(x.cfg.File), x.cfg.GcI, x.cfg.GcM, x.cfg.Dlt)}
+	if x.initFile != nil {
+		fp := []string{}
+		for _, s := range *x.initFile {
+			cs := []string{}
+			for _, l := range s.Locks {
+				cs = append(cs, clockToks(unhx(l.Name), unhx(l.Key), l.Size))
+			}
+			fp = append(fp, strings.TrimSpace(fmt.Sprintf("%s %d %s", hx(unhx(s.Sid)), len(s.Locks), strings.Join(cs, " "))))
+		}
+		ls = append(ls, strings.TrimSpace(fmt.Sprintf("F %d %s", len(*x.initFile), strings.Join(fp, " "))))
+	}
 	if x.viaSvc {
 		ls = append(ls, "V service")
 	}
@@ -629,7 +670,13 @@ func RunHistory(h *History, statePath string, gen func(x *Exec, i int) (Ev, bool
 	x := NewExec(h.Cfg, statePath)
 	x.viaSvc = h.Mode == "service"
 	x.start = time.Now()
-	if err := x.boot(); err != nil {
+	if h.InitFile != nil && h.Cfg.File {
+		// boot on a given state file: written now with the real store, restored by the history's first event (`restart`)
+		if err := writeInitFile(statePath, *h.InitFile); err != nil {
+			return []string{"H " + h.ID, "B init-file-error " + hx(err.Error()), "X"}, "init file: " + err.Error()
+		}
+		x.initFile = h.InitFile
+	} else if err := x.boot(); err != nil {
 		return []string{"H " + h.ID, "B boot-error " + hx(err.Error()), "X"}, "boot: " + err.Error()
 	}
 	func() {
